@@ -48,9 +48,9 @@ IN_COVERS = {"retry_attempt", "second_packet_pid1", "nak"}
 
 
 # ------------------------------------------------------------------------------------------------ IN endpoints
-def make_in(kind, MAX):
+def make_in(kind, MAX, epnum=2):
     def contract(c):
-        V = View(c, kind, MAX)
+        V = View(c, kind, MAX, epnum=epnum)
         g = build(c, V, allow_reset=True, only=IN_ENSURES | IN_COVERS)
         I, O, n = V.I, V.O, c.nx
         exp_pid, acked, reset = g["exp_pid"], g["acked"], V.reset_seq
@@ -256,6 +256,7 @@ def contracts(tier):
         yield ("USBDevice", "wiring_ulpi", device_wiring("ulpi", WIRING))
     yield ("USBStreamInEndpoint", "max8", make_in("endpoint", 8))
     yield ("USBInTransferManager", "max8", make_in("manager", 8))
+    yield ("USBStreamInEndpoint", "max8_ep9", make_in("endpoint", 8, epnum=9))      # all four endpoint-number bits (wave P)
     yield ("USBStreamOutEndpoint", "max8", make_out(8))
     # endpoint number above 7 (all four bits of the clear-halt / token comparison matter; seed P1_2)
     yield ("USBStreamOutEndpoint", "max8_ep9", make_out(8, epnum=9))
